@@ -120,7 +120,9 @@ Print Assumptions C02_real_sequence_jacobian.
 (* ... and item_ok holds for the operators of the package, with the arrays TRANSLATED from /repo
    (Gen/Transition.v, Gen/Evolution.v): T in alpha or phi, Phi, E in tau, T1, T2 or g, P in tau or g,
    R in Re rT, rL or r0, driven affinely by x, plus constant T / E / P and shifts (real_item lists them
-   with the side conditions T1 <> 0, T2 <> 0 where the package divides by them). *)
+   with the side conditions T1 <> 0, T2 <> 0 where the package divides by them), AND the operators without
+   differentiable parameter applied through Operator.__call__: SPOILER, RESET, PD(pd, reset) and Wait
+   (RSpoil / RReset / RPD pd reset / RWait: dop_of = DPlain, the operator also acts on the partials). *)
 Theorem C02_real_operators_jacobian (x0 : R) (v : var) (items : list ritem) (pd : C) :
   List.Forall (real_item x0) items ->
   let ds := drun (map (dop_of x0 v) items) (dinit (@init Cops pd)) in
@@ -134,20 +136,27 @@ Print Assumptions C02_real_operators_jacobian.
 Example C02_real_operators_nonvacuous :
   List.Forall (real_item 50%R)
     [iT_alpha 1 0 30; RS 1 None; iE_T2 8 1000 (1/100) 1 0; iT_alpha 2 0 0; RS (-1) (Some 3%nat);
-     iE_const 5 1000 50 0; iP_g 3 (1/1000) 0; iT_phi 60 1 0].
+     iE_const 5 1000 50 0; iP_g 3 (1/1000) 0; iT_phi 60 1 0] /\
+  (* ... with SPOILER, PD(reset=True), PD(reset=False), RESET and Wait between differentiable operators *)
+  List.Forall (real_item 50%R)
+    [iT_alpha 1 0 30; RS 1 None; iE_T2 8 1000 (1/100) 1 0; RSpoil; iT_alpha 2 0 0; RPD (RtoC 2) true;
+     iE_T2 8 1000 0 1 0; RS 1 None; RPD (RtoC (1/2)) false; iT_phi 60 1 0; RWait; iE_T2 5 1000 0 1 0;
+     RReset; iT_alpha 1 0 0; iE_T2 5 1000 0 1 0].
 Proof.
-  repeat constructor; apply Rgt_not_eq; Lra.lra.
+  split; repeat constructor; apply Rgt_not_eq; Lra.lra.
 Qed.
 
-(* (5) REFUTED clause ("whatever other operators, differentiable or not, occur"): operators applied
-   through Operator.__call__ leave the partials untouched; after a spoiler the signal is 0 (so every
-   derivation gives 0) but the carried Jacobian entry is not. *)
-Theorem C02_jacobian_refuted_spoiler :
+(* (5) "whatever other operators, differentiable or not, occur": operators applied through Operator.__call__
+   (SPOILER, RESET, PD, Wait) act on the partials too -- they are instructions of the programs theorems (2)-(4)
+   quantify over; regression witness of the former finding (fixed by /repo 8521bf9): after a spoiler the signal
+   is 0 and so is the carried Jacobian entry, which was non-zero just before it. *)
+Theorem C02_jacobian_through_spoiler :
   exists (prog : list (dinstr QIops)) (v : var),
-    f0 QIops (d_main (drun prog (dinit (@init QIops (qr 1 1))))) = qi0 /\
-    jacobian (drun prog (dinit (@init QIops (qr 1 1)))) [v] <> [qi0].
-Proof. exact spoiler_keeps_partials. Qed.
-Print Assumptions C02_jacobian_refuted_spoiler.
+    jacobian (drun prog (dinit (@init QIops (qr 1 1)))) [v] <> [qi0] /\
+    f0 QIops (d_main (drun (prog ++ [DPlain (@OSpoil QIops)]) (dinit (@init QIops (qr 1 1))))) = qi0 /\
+    jacobian (drun (prog ++ [DPlain (@OSpoil QIops)]) (dinit (@init QIops (qr 1 1)))) [v] = [qi0].
+Proof. exact spoiler_acts_on_partials. Qed.
+Print Assumptions C02_jacobian_through_spoiler.
 
 (* non-vacuity of (2)/(3): over the dual numbers a + a' x (a scalar ring) the Euler operator is a
    non-trivial derivation; an operator with arrays a + a' x and declared derivative a' x meets instr_ok,
